@@ -179,9 +179,9 @@ func verifDumpQuery(b *bytes.Buffer, q query) {
 		verifDumpQuery(b, x.Predicate)
 		b.WriteString(")")
 	case *functionQuery:
-		b.WriteString("(function ")
-		verifDumpQuery(b, x.Input)
-		b.WriteString(")")
+		// only the kind of the captured input: it is used for its node test alone, and the builder's
+		// merge rewrite may later re-root it
+		b.WriteString("(function " + verifQueryKind(x.Input) + ")")
 	case *transformFunctionQuery:
 		b.WriteString("(transform ")
 		verifDumpQuery(b, x.Input)
@@ -246,6 +246,21 @@ func verifDumpQuery(b *bytes.Buffer, q query) {
 	default:
 		fmt.Fprintf(b, "(?query %T)", q)
 	}
+}
+
+func verifQueryKind(q query) string {
+	if q == nil || (reflect.ValueOf(q).Kind() == reflect.Ptr && reflect.ValueOf(q).IsNil()) {
+		return "_"
+	}
+	var b bytes.Buffer
+	verifDumpQuery(&b, q)
+	s := b.String()
+	for i := 1; i < len(s); i++ {
+		if s[i] == ' ' || s[i] == ')' {
+			return s[1:i]
+		}
+	}
+	return s
 }
 
 // VerifPlanDump compiles expr and returns an s-expression of the built query tree
